@@ -77,6 +77,8 @@ def read_place(env, p):
                 v = v.fields[e["i"]] if e["i"] < len(v.fields) else UNKNOWN
             elif isinstance(v, (list, tuple)):
                 v = v[e["i"]] if e["i"] < len(v) else UNKNOWN
+            elif hasattr(v, "field_view"):
+                v = v.field_view(e)             # an opaque token of a client table that knows some of its fields
             else:
                 return UNKNOWN
         elif k == "const_index":
